@@ -788,7 +788,7 @@ impl Monitor for M {
                     Tier::Quick => "all strings of length <= 5 over {\\,^,space,newline,5,e,é} x 6 catcode tables x end-line char in {CR,none,e,^,space}",
                     Tier::Thorough => "all strings of length <= 7 over {\\,^,space,newline,5,e,é} x 6 catcode tables x end-line char in {CR,none,e,^,space}",
                 }),
-            Phase::new("random", tier.pick(3_000_000, 50_000_000)).batch(tier.pick(1024, 8192)),
+            Phase::new("random", tier.pick(2_000_000, 50_000_000)).batch(tier.pick(1024, 8192)),
             Phase::new("vm", tier.pick(120_000, 3_000_000)).batch(tier.pick(128, 1024)),
         ]
     }
@@ -812,30 +812,30 @@ impl Monitor for M {
             ("exh:trimmed_spaces", r(50_000, 2_000_000)),
             ("exh:traces_of_endlinechar_tokens", r(150_000, 7_000_000)),
             ("exh:traces_after_multibyte_char", r(150_000, 7_000_000)),
-            ("random:cases", r(3_000_000, 50_000_000)),
-            ("random:traces_checked", r(6_000_000, 100_000_000)),
-            ("random:traces_of_caret_reduced_tokens", r(800_000, 13_000_000)),
-            ("random:traces_after_multibyte_char", r(1_000_000, 17_000_000)),
-            ("random:traces_on_line_2+", r(2_000_000, 33_000_000)),
-            ("random:traces_of_endlinechar_tokens", r(1_000_000, 16_000_000)),
-            ("random:caret_reductions_main_loop", r(900_000, 15_000_000)),
-            ("random:caret_reductions_in_cs_name", r(250_000, 4_000_000)),
-            ("random:caret_recursive_reductions", r(80_000, 1_300_000)),
-            ("random:cs_names_with_2+_reductions", r(18_000, 300_000)),
-            ("random:carets_at_line_end_no_reduction", r(10_000, 160_000)),
-            ("random:trimmed_spaces", r(1_600_000, 27_000_000)),
-            ("random:par_tokens", r(130_000, 2_000_000)),
-            ("random:eol_space_tokens", r(280_000, 4_500_000)),
-            ("random:eol_skipped_in_state_S", r(55_000, 900_000)),
-            ("random:comments", r(120_000, 2_000_000)),
-            ("random:ignored_chars", r(140_000, 2_300_000)),
-            ("random:invalid_chars", r(100_000, 1_600_000)),
-            ("random:null_cs", r(26_000, 400_000)),
-            ("random:no_final_newline", r(450_000, 7_500_000)),
-            ("random:endlinechar=none", r(150_000, 2_500_000)),
-            ("random:endlinechar=superscript-char", r(140_000, 2_300_000)),
-            ("random:endlinechar=letter", r(160_000, 2_700_000)),
-            ("random:utf8_validity_checks", r(450_000, 7_500_000)),
+            ("random:cases", r(2_000_000, 50_000_000)),
+            ("random:traces_checked", r(4_000_000, 100_000_000)),
+            ("random:traces_of_caret_reduced_tokens", r(533_333, 13_000_000)),
+            ("random:traces_after_multibyte_char", r(666_666, 17_000_000)),
+            ("random:traces_on_line_2+", r(1_333_333, 33_000_000)),
+            ("random:traces_of_endlinechar_tokens", r(666_666, 16_000_000)),
+            ("random:caret_reductions_main_loop", r(600_000, 15_000_000)),
+            ("random:caret_reductions_in_cs_name", r(166_666, 4_000_000)),
+            ("random:caret_recursive_reductions", r(53_333, 1_300_000)),
+            ("random:cs_names_with_2+_reductions", r(12_000, 300_000)),
+            ("random:carets_at_line_end_no_reduction", r(6_666, 160_000)),
+            ("random:trimmed_spaces", r(1_066_666, 27_000_000)),
+            ("random:par_tokens", r(86_666, 2_000_000)),
+            ("random:eol_space_tokens", r(186_666, 4_500_000)),
+            ("random:eol_skipped_in_state_S", r(36_666, 900_000)),
+            ("random:comments", r(80_000, 2_000_000)),
+            ("random:ignored_chars", r(93_333, 2_300_000)),
+            ("random:invalid_chars", r(66_666, 1_600_000)),
+            ("random:null_cs", r(17_333, 400_000)),
+            ("random:no_final_newline", r(300_000, 7_500_000)),
+            ("random:endlinechar=none", r(100_000, 2_500_000)),
+            ("random:endlinechar=superscript-char", r(93_333, 2_300_000)),
+            ("random:endlinechar=letter", r(106_666, 2_700_000)),
+            ("random:utf8_validity_checks", r(300_000, 7_500_000)),
             ("vm:cases", r(120_000, 3_000_000)),
             ("vm:catcode_changes_mid_file", r(120_000, 3_000_000)),
             ("vm:endlinechar_changes_mid_file", r(24_000, 600_000)),
@@ -847,12 +847,12 @@ impl Monitor for M {
         ];
         // the Miri stage (stages/C03.sh) is run by ./check, which then sets VERIF_STAGE_DIR
         if std::env::var("VERIF_STAGE_DIR").map(|d| !d.is_empty()).unwrap_or(false) {
-            v.push(("miri-stacked:strings", r(320, 3200)));
-            v.push(("miri-tree:strings", r(320, 3200)));
-            v.push(("miri-stacked:caret_pairs_in_sources", r(600, 6000)));
-            v.push(("miri-tree:caret_pairs_in_sources", r(600, 6000)));
-            v.push(("miri-stacked:utf8_validity_checks", r(1200, 12000)));
-            v.push(("miri-tree:utf8_validity_checks", r(1200, 12000)));
+            v.push(("miri-stacked:strings", r(240, 3200)));
+            v.push(("miri-tree:strings", r(240, 3200)));
+            v.push(("miri-stacked:caret_pairs_in_sources", r(450, 6000)));
+            v.push(("miri-tree:caret_pairs_in_sources", r(450, 6000)));
+            v.push(("miri-stacked:utf8_validity_checks", r(900, 12000)));
+            v.push(("miri-tree:utf8_validity_checks", r(900, 12000)));
         }
         v
     }
